@@ -464,7 +464,7 @@ def gen_strings(ctx, pool):
     rng = ctx.rng
     out = [bytes([b]) for b in range(256)]                      # exhaustive single bytes
     out += [b"", b'\\"', b'"\\', b"\\\\", b"\t\n", bytes(range(256)), bytes(range(255, -1, -1))]
-    for _ in range(ctx.n(150, 3000)):
+    for _ in range(ctx.n(300, 5000)):
         k = rng.randrange(4)
         if k == 0:
             out.append(pool.one())
@@ -798,6 +798,7 @@ def run(ctx):
     objdir, hexe = setup(ctx)
     pool = NamePool(ctx.rng)
     check_escapes(ctx, hexe, pool, e2e_record(ctx, objdir))
+    pool = NamePool(ctx.rng)            # a fresh sweep over the byte values for the directory cases
     repro = witnesses(ctx, objdir, hexe)
     flame_fixed = not repro["flame-count-truncated"]
     ctx.extra["flame_count_printed_in_full"] = flame_fixed
@@ -808,9 +809,13 @@ def run(ctx):
          "recs": [(100, True, 0, 1000), (100, True, 1, 1000), (100, False, 1, 1000), (100, False, 0, 1000)]},
         flame_witness_case(),
     ]
-    n = ctx.n(90, 1200)
+    n = ctx.n(220, 2500)
     d = os.path.join(ctx.scratch, "dir")
-    for i in range(n + len(fixed)):
+    i = -1
+    while True:
+        i += 1
+        if i >= n + len(fixed) and not (pool.todo and i < 2 * n):     # go on until every byte value was in a name
+            break
         c = fixed[i] if i < len(fixed) else gen_case(ctx.rng, pool, big=(i % 7 == 0),
                                                      avoid_trunc=not (flame_fixed and i % 3 == 0))
         kw = {}
